@@ -122,7 +122,7 @@ RouteExpect(r, own, keep) == LET r1 == IF own THEN Tail(r) ELSE r
 \* C16 reduced URI for the dialog identity
 DlgUri(u) == IF IsSip(u) THEN <<u.scheme, u.user, u.pass, u.host, u.port>> ELSE <<u.scheme, u.opaque>>
 TagOf(e) == ParamOf(e.hparams, "tag")
-=========================================================================\* The host tables of the configuration (main.go createPreConfigHostResolver): a name declared in the table of the
+\* The host tables of the configuration (main.go createPreConfigHostResolver): a name declared in the table of the
 \* service AND in the top-level table shared by all services means what the service's own table says.
 HostTable(svc, global) == svc @@ global
-====
+=============================================================================
